@@ -399,7 +399,15 @@ def prop_c04bec2(k, bs, cs, es, ephs, what, stride, offset):
         return "ok 0 undamaged-file-not-readable-with-these-decryptors " + type(e).__name__
     blocks0 = known(base)
 
-    def same(f, text_prefix=False):
+    # positions of the unauthenticated framing bytes of the header: tag and length byte of every auth block
+    hdr_framing = set()
+    _p = len(BEC2_FILE_SIG)
+    for _t, _v in _header_tlvs(binary)[0]:
+        hdr_framing.update((_p, _p + 1))
+        _p += 2 + len(_v)
+    hdr_framing.update((_p, _p + 1))
+
+    def same(f, text_prefix=False, pos=None):
         # reference = what the UNDAMAGED file reads as (a customer key placed over the session-key field makes even that
         # differ from the key the writer was given: write/read agreement is C07's subject, not damage detection)
         if f.session_key != base.session_key:
@@ -418,6 +426,10 @@ def prop_c04bec2(k, bs, cs, es, ephs, what, stride, offset):
         kf = known(f)
         if kf != blocks0:
             it = iter(blocks0)
+            if pos is not None and pos not in hdr_framing:
+                # the known findings are about the tag / length bytes of the header; the VALUE of a block the reader can open
+                # is protected by its container (marker, CRC) - damage there that goes through is something else
+                return f"decrypted auth blocks {kf} instead of {blocks0} after damage inside a block's value"
             if all(any(x == y for y in it) for x in kf):
                 # header tag/length bytes are not authenticated: an opened block can be turned into an opaque one
                 return (f"KNOWN:HEADER-DOWNGRADE opened auth blocks {kf} are a proper sub-list of the original "
@@ -560,7 +572,14 @@ def prop_c02(k, bs, cs, es, ephs):
     for r in range(1, len(decs) + 1):
         for idx in itertools.combinations(range(len(decs)), r):
             sub = [decs[i] for i in idx]
-            for order in ([sub, list(reversed(sub))] if len(sub) > 1 else [sub]):
+            # ... and the same decryptors followed by public-key-only encryptors for the ECC blocks they do not open (such an
+            # encryptor matches the block but cannot decrypt: the block stays opaque)
+            pubonly = [EccEncryptor(d.key_selector, d.public_key) for j, d in enumerate(decs)
+                       if j not in idx and isinstance(d, EccEncryptor)]
+            orders = [sub, list(reversed(sub))] if len(sub) > 1 else [sub]
+            if pubonly:
+                orders.append(sub + pubonly)
+            for order in orders:
                 n += 1
                 try:
                     if n % 3:
@@ -670,7 +689,7 @@ def prop_c06nocipher(k, cs, mode):
     key = unhx(k)
     saved = getattr(crypto, "__AES128")
     calls = {"n": 0}
-    fail_at = int(mode) if mode != "missing" else None
+    fail_at = int(mode) if mode not in ("missing", "strict") else None
 
     class Flaky(saved):
         def encrypt(self, data):
@@ -679,6 +698,34 @@ def prop_c06nocipher(k, cs, mode):
                 raise RuntimeError("cipher failure injected")
             return super().encrypt(data)
 
+    class Strict(saved):
+        """a cipher that, like most AES libraries, refuses data that is not a whole number of blocks: the zero padding is the
+        library's job (`crypto.pad`), not the plug-in's"""
+        _mac = False
+
+        def mac(self, data):                     # MACs are taken over unaligned data by design (the plug-in pads those)
+            self._mac = True
+            try:
+                return super().mac(data)
+            finally:
+                self._mac = False
+
+        def encrypt(self, data):
+            if not self._mac and (len(data) % 16 or not data):
+                raise ValueError(f"strict cipher: {len(data)} bytes are not a whole number of blocks")
+            return super().encrypt(data)
+
+    if mode == "strict":
+        want = Bf3File({}, b3.parse_comps(cs)).to_binary(5, key)
+        try:
+            crypto.register_AES128(Strict)
+            try:
+                got = Bf3File({}, b3.parse_comps(cs)).to_binary(5, key)
+            except ValueError as e:
+                return f"FAIL the library hands the registered cipher unpadded data: {e}"
+            return "ok strict" if got == want else "FAIL another file is written under a cipher that insists on whole blocks"
+        finally:
+            crypto.register_AES128(saved)
     try:
         crypto.register_AES128(crypto.AES128 if mode == "missing" else Flaky)
         try:
@@ -918,7 +965,9 @@ def prop_c09(sel, d, eph, k, explicit):
         raise RuntimeError("harness: openssl ec failed " + r.stderr.decode()[:200])
     pub_der = r.stdout
     with Oracle([eph]):
-        encs = [EccEncryptor(sel, crypto.create_public_ecc_key_from_der_fmt(pub_der))] if explicit == "1" else []
+        # the recipient as a public-key encryptor or - "Decryptor AND Encryptor" - as the decryptor that holds the private key
+        encs = ([EccEncryptor(sel, crypto.create_public_ecc_key_from_der_fmt(pub_der))] if eph % 2 else [EccDecryptor(sel, priv_key(d))]) \
+            if explicit == "1" else []
         if explicit != "1":
             return "ok n/a"
         # recipients of the other selectors (the published keys) and a security-code encryptor stand before / behind the
